@@ -641,6 +641,10 @@ class ConnInterp:
             if isinstance(op, (ast.Is, ast.IsNot)) and isinstance(r, ast.Constant) and r.value is None:
                 isnone = truth if isinstance(op, ast.Is) else not truth
                 v = self.ev(l, st, f, depth)
+                if isinstance(v, Scal) and v.kind == "none":
+                    return isnone
+                if isinstance(v, Scal) and v.kind in ("str", "lit", "bool"):
+                    return not isnone
                 if isinstance(v, Scal) and v.kind == "sentinel_var" and isnone:
                     for nm, val in list(st.env.items()):
                         if isinstance(val, Arr) and val.sent[0] == "decl":
